@@ -119,6 +119,9 @@ def run_harness(h, params, tier, seed):
         paths = ex.paths
     res["budget_exhausted"] = ex.budget_exhausted
     res["paths"] = len(paths)
+    if ex.budget_exhausted:
+        res["inconclusive"] += 1
+        res["inconclusive_list"].append({"name": "*", "how": "path/wall budget exhausted with %d scheduled paths unexplored: coverage of this parameter set is incomplete" % len(ex.pending)})
     axioms = set()
     sample_left = 2
     for rec in paths:
